@@ -56,6 +56,15 @@ def _parse_helpers(helper_src):
         for n in t.body:
             if isinstance(n, ast.FunctionDef):
                 out[n.name] = n
+            elif isinstance(n, (ast.Assign, ast.AnnAssign)) and getattr(n, 'value', None) is not None:
+                # a small literal table written by hand into the generated module: known to the walker as a constant
+                tg = n.targets[0] if isinstance(n, ast.Assign) and len(n.targets) == 1 else (n.target if isinstance(n, ast.AnnAssign) else None)
+                if isinstance(tg, ast.Name):
+                    try:
+                        ast.literal_eval(n.value)
+                    except Exception:
+                        continue
+                    out.setdefault('__consts__', {})[tg.id] = sym.SymExec(ast.parse('def _f(): pass').body[0]).expr(n.value)
     return out
 
 _GEN_PREFIXES = ('decode_pgn_', 'encode_pgn_', 'is_fast_pgn_', 'lookup_')
@@ -119,9 +128,10 @@ def _summarise_body(body, helpers=None):
         if isinstance(node, (ast.FunctionDef, ast.AsyncFunctionDef)):
             s = {'kind': 'def', 'name': node.name, 'line': node.lineno, 'end': node.end_lineno,
                  'async': isinstance(node, ast.AsyncFunctionDef), 'decorators': len(node.decorator_list)}
-            if helpers and not node.name.startswith(_GEN_PREFIXES):
+            if helpers and not node.name.startswith(_GEN_PREFIXES) and node.name != '__consts__':
                 s['helper'] = True
-            ex = sym.SymExec(node, inline={k: v for k, v in (helpers or {}).items() if k != node.name})
+            hconsts = (helpers or {}).get('__consts__')
+            ex = sym.SymExec(node, inline={k: v for k, v in (helpers or {}).items() if k != node.name and k != '__consts__'}, consts=hconsts)
             try:
                 ex.run()
                 s['events'] = ex.events
@@ -138,7 +148,7 @@ def _summarise_body(body, helpers=None):
                         t2, _rep = normalize.normalize_module('pgns', ast.Module(body=[_copy.deepcopy(node)], type_ignores=[]), {})
                         n2 = [x for x in t2.body if isinstance(x, (ast.FunctionDef, ast.AsyncFunctionDef)) and x.name == node.name]
                         if n2:
-                            ex2 = sym.SymExec(n2[0], inline={k: v for k, v in (helpers or {}).items() if k != node.name})
+                            ex2 = sym.SymExec(n2[0], inline={k: v for k, v in (helpers or {}).items() if k != node.name and k != '__consts__'}, consts=hconsts)
                             ex2.run()
                             s['events'] = ex2.events
                             s['params'] = ex2.params
@@ -195,6 +205,14 @@ def summarise_generated(path, jobs=None, extra_helpers=()):
             if i > 0 and lines[i - 1].startswith('@'):
                 continue
             helper_src.append(('\n'.join(lines[i:j]) + '\n', i + 1))
+    # small literal tables at module level (names the generator does not produce: it emits master_dict / lookup tables only)
+    for k, i in enumerate(starts):
+        m = re.match(r'([A-Za-z_][A-Za-z0-9_]*)\s*(:[^=]+)?=[^=]', lines[i])
+        if m and m.group(1) not in ('master_dict',) and not m.group(1).startswith(('lookup_dict', 'LOOKUP_', 'master_')):
+            j = starts[k + 1] if k + 1 < len(starts) else len(lines)
+            src = '\n'.join(lines[i:j]) + '\n'
+            if len(src) <= 6000:
+                helper_src.append((src, i + 1))
     # helpers of utils.py that are not among the functions the rules are anchored in (wrappers a refactoring added): walked in place as well
     helper_src = tuple(helper_src) + tuple(extra_helpers)
     if len(starts) > 64 and jobs > 1:
